@@ -364,6 +364,12 @@ func exploreC13(t *testing.T, seed uint64, idx int, tier string, sink *Sink) {
 	hist := c13Plan(r, ws, ra, rb, tgt, prof)
 	hist.Meta["arm"] = "sensitivity"
 	hist.Meta["class"] = class.name
+	if r.Chance(1, 8) {
+		// the artifact passed through a tool that rewrites line ends (a checkout with autocrlf, an
+		// editor): it is still the same certificate with the same stored hash
+		hist.Ops = append(hist.Ops, Op{ID: 14, K: "corrupt", Path: tgt.PemPath(), Arg: "crlf", Label: "artifact-crlf"})
+		hist.Meta["crlf"] = "1"
+	}
 	if !sameJSON(prof, p1) {
 		hist.Ops = append(hist.Ops, Op{ID: 11, K: "put-prof", Prof: p1, Label: class.name})
 	}
